@@ -4,7 +4,7 @@
 (* record of the batch (JSON array, env TRACE_FILE) is one call            *)
 (* (operation, arguments, result) recorded from the implementation - a     *)
 (* one-step trace.  The spec evaluates the declarative meaning of the      *)
-(* operation and prints <<"V", tid, {failed clauses}>> for every record.   *)
+(* operation and prints one JSON line {v: tid, c: failed clauses} per record*)
 (***************************************************************************)
 EXTENDS ClassIds, Calls, TLC, Json, IOUtils
 
@@ -13,7 +13,7 @@ NT == Len(Traces)
 VARIABLE tid
 Init == tid = 1
 Step == /\ tid <= NT
-        /\ PrintT(<<"V", tid, Judge(Traces[tid])>>)
+        /\ PrintT(ToJson([v |-> tid, c |-> Judge(Traces[tid]), x |-> <<>>]))
         /\ tid' = tid + 1
 Spec == Init /\ [][Step]_tid
 =============================================================================
